@@ -132,6 +132,30 @@ def gen_points(rng, fmt, prog, n):
         return (e << (p - 1)) | rng.getrandbits(p - 1)
     for _ in range(n):
         pts.append(("band", rnd_sign(band(rng.choice(crit))), rnd_sign(band(rng.choice(crit)))))
+    # (e) critical CURVES of the complex plane (not visible component-wise): the circles |z| = 1 (log, log2, log10: log|z| cancels) and
+    # |1 + z| = 1 (log1p), at distance delta log-uniform from one ulp to 1/4 on either side and at a uniform angle, and small circles
+    # around the branch points +-1, +-i (asin, acos, atanh, ...).  Computed in float64, then rounded to the format.
+    def to_bits(v):
+        return int(ir.canon_bits(ir.bits_of(fpx.NPF[fmt](v), fmt), fmt))
+    centres = [(0.0, 0.0), (-1.0, 0.0), (1.0, 0.0), (0.0, 1.0), (0.0, -1.0)]
+    for _ in range(n):
+        cx, cy = rng.choice(centres[:2]) if rng.random() < 0.6 else rng.choice(centres[2:])
+        delta = 2.0 ** (-rng.uniform(2, p + 1)) * rng.choice((-1, 1))
+        big = (cx, cy) in centres[:2] or rng.random() < 0.3
+        rad = 1.0 + delta if big else abs(delta) * 4
+        if rng.random() < 0.8:
+            th = rng.uniform(0, 2 * math.pi)
+        else:
+            th = rng.choice((0.25, 0.75, 1.25, 1.75, 0.5, 1.0, 1.5)) * math.pi + rng.uniform(-1, 1) * 2.0 ** (-rng.randrange(2, p))
+        xv, yv = cx + rad * math.cos(th), cy + rad * math.sin(th)
+        xb_, yb_ = to_bits(xv), to_bits(yv)
+        if rng.random() < 0.3:
+            # move along the format's lattice near the curve: nudge the smaller component by a few ulps
+            if abs(xv) < abs(yv):
+                xb_ = max(0, (xb_ & ~sign) + rng.randrange(-3, 4)) | (xb_ & sign)
+            else:
+                yb_ = max(0, (yb_ & ~sign) + rng.randrange(-3, 4)) | (yb_ & sign)
+        pts.append(("curve", xb_, yb_))
     # (d) special lattice (finite and infinite)
     L = [0, 1, 1 << (p - 1), bias << (p - 1), inf - 1, inf]
     L = L + [v | sign for v in L]
